@@ -208,8 +208,15 @@ fn build_locfile(id: u64) -> Result<LocFile, String> {
     Ok(LocFile { id, name_spans, flat })
 }
 
+/// `c30_miri --no-locations`: no document is parsed (rowan, which apollo-parser builds its trees with, is
+/// rejected by Miri's aliasing models); operations that need a source span become no-ops.
+static NO_LOCATIONS: std::sync::atomic::AtomicBool = std::sync::atomic::AtomicBool::new(false);
+
 /// Location documents are parsed once per process and file id.
 fn locfile(idx: usize) -> Result<Arc<LocFile>, String> {
+    if NO_LOCATIONS.load(std::sync::atomic::Ordering::Relaxed) {
+        return Ok(Arc::new(LocFile { id: FILE_IDS[idx], name_spans: vec![vec![]; POOL.len()], flat: vec![] }));
+    }
     static CACHE: OnceLock<Mutex<BTreeMap<usize, Arc<LocFile>>>> = OnceLock::new();
     let m = CACHE.get_or_init(|| Mutex::new(BTreeMap::new()));
     let mut g = m.lock().unwrap_or_else(|e| e.into_inner());
@@ -584,15 +591,18 @@ impl<'p> State<'p> {
         }
     }
 
-    fn span_for(&self, loc: (bool, u8, u8)) -> (SourceSpan, Loc) {
+    fn span_for(&self, loc: (bool, u8, u8)) -> Option<(SourceSpan, Loc)> {
         let f = &self.files[loc.0 as usize];
         let n = f.flat.len();
+        if n == 0 {
+            return None;
+        }
         let (mut i, mut j) = (idx(loc.1, n), idx(loc.2, n));
         if i > j {
             std::mem::swap(&mut i, &mut j);
         }
         let span = SourceSpan::recompose(Some(f.flat[i].0), Some(f.flat[j].0)).expect("two spans");
-        (span, Loc { id: f.id, start: f.flat[i].1, end: f.flat[j].2 })
+        Some((span, Loc { id: f.id, start: f.flat[i].1, end: f.flat[j].2 }))
     }
 
     // --------------------------------------------------------------------------------------------
@@ -711,6 +721,9 @@ impl<'p> State<'p> {
                 let text = self.names[s].as_ref().unwrap().1.text.clone();
                 let Some(ti) = POOL.iter().position(|t| *t == text) else { return Ok(()) };
                 let f = self.files[file as usize].clone();
+                if f.name_spans[ti].is_empty() {
+                    return Ok(());
+                }
                 let (span, start) = f.name_spans[ti][idx(occ, OCCS)];
                 let (n, mut m) = self.names[s].take().unwrap();
                 let n = n.with_location(span);
@@ -825,11 +838,8 @@ impl<'p> State<'p> {
                 let p = Payload { n: n as u64, name: pname, tracker: tracker.clone() };
                 self.trackers.push((tracker, 1));
                 let ti = self.trackers.len() - 1;
-                let (node, l) = match loc {
-                    Some(l) => {
-                        let (span, l) = self.span_for(l);
-                        (Node::new_parsed(p, span), Some(l))
-                    }
+                let (node, l) = match loc.and_then(|l| self.span_for(l)) {
+                    Some((span, l)) => (Node::new_parsed(p, span), Some(l)),
                     None => (Node::new(p), None),
                 };
                 self.log(|| format!("d{} = Node::{}(Payload {{ n: {}, name: {:?} }}{})", dst, if l.is_some() { "new_parsed" } else { "new" }, n, pm.as_ref().map(|m| m.text.clone()), fmt_loc(&l)));
@@ -843,11 +853,8 @@ impl<'p> State<'p> {
                 let all = POOL.len() + ODD.len();
                 let k = idx(text, all);
                 let t = if k < POOL.len() { POOL[k] } else { ODD[k - POOL.len()] };
-                let (node, l) = match loc {
-                    Some(l) => {
-                        let (span, l) = self.span_for(l);
-                        (Node::new_str_parsed(t, span), Some(l))
-                    }
+                let (node, l) = match loc.and_then(|l| self.span_for(l)) {
+                    Some((span, l)) => (Node::new_str_parsed(t, span), Some(l)),
                     None => (Node::new_str(t), None),
                 };
                 self.log(|| format!("d{} = Node::{}({:?}{})", dst, if l.is_some() { "new_str_parsed" } else { "new_str" }, t, fmt_loc(&l)));
@@ -1459,6 +1466,16 @@ fn harness_dir(exe: &str) -> String {
     env!("CARGO_MANIFEST_DIR").to_string()
 }
 
+/// rowan (the syntax-tree crate under apollo-parser) is rejected by both of Miri's aliasing models, and a
+/// `SourceSpan` can only be obtained from a parse. So each history runs in one of two modes.
+#[derive(Clone, Copy, PartialEq, Eq, Debug)]
+pub enum MiriMode {
+    /// default Miri (Stacked Borrows, data races, leaks); nothing is parsed, location operations are no-ops
+    AliasingNoLocations,
+    /// `-Zmiri-disable-stacked-borrows` (use-after-free, double free, data races, leaks); with locations
+    LocationsNoAliasing,
+}
+
 pub struct MiriRun {
     pub status: Option<i32>,
     pub stdout: String,
@@ -1467,15 +1484,19 @@ pub struct MiriRun {
 }
 
 /// Run `cargo +nightly miri run --bin c30_miri -- args` with a wall-clock limit.
-pub fn miri_run(dir: &str, miri_seed: u64, args: &[String], limit_s: u64) -> Result<MiriRun, String> {
+pub fn miri_run(dir: &str, mode: MiriMode, miri_seed: u64, args: &[String], limit_s: u64) -> Result<MiriRun, String> {
     use std::io::Read;
     use std::process::{Command, Stdio};
     let mut cmd = Command::new("cargo");
     cmd.current_dir(dir)
         .arg("+nightly").arg("miri").arg("run").arg("--quiet").arg("--bin").arg("c30_miri").arg("--")
+        .args(if mode == MiriMode::AliasingNoLocations { vec!["--no-locations".to_string()] } else { vec![] })
         .args(args)
         .env("CARGO_NET_OFFLINE", "true")
-        .env("MIRIFLAGS", format!("-Zmiri-seed={}", miri_seed))
+        .env(
+            "MIRIFLAGS",
+            format!("-Zmiri-seed={}{}", miri_seed, if mode == MiriMode::LocationsNoAliasing { " -Zmiri-disable-stacked-borrows" } else { "" }),
+        )
         .env_remove("RUSTFLAGS")
         .stdin(Stdio::null())
         .stdout(Stdio::piped())
@@ -1549,28 +1570,29 @@ fn miri_single(mode: &str, bytes: &[u8], ctx: &mut Ctx) -> Outcome {
     let o = if mode == "t" { run_threaded(bytes, true, 2) } else { run_single(bytes, true) };
     ctx.set_sample(o.trace.clone());
     let seed = std::env::var("VERIF_MIRI_SEED").ok().and_then(|s| s.parse().ok()).unwrap_or(0u64);
-    match miri_run(&dir, seed, &[format!("{}:{}", mode, crate::choices::hex(bytes))], 1200) {
-        Err(_) => ctx.skip("cargo miri cannot be started"),
-        Ok(r) if r.timed_out => ctx.skip("miri run exceeded the wall-clock limit"),
-        Ok(r) => {
-            if let Some((sig, detail)) = miri_error_sig(&r.stderr) {
-                return Outcome::fail(sig, detail);
-            }
-            for l in r.stdout.lines() {
-                if let Some(rest) = l.strip_prefix("FAIL ") {
-                    let mut it = rest.splitn(3, '\t');
-                    let _ = it.next();
-                    let sig = it.next().unwrap_or("C30|miri|oracle").to_string();
-                    return Outcome::fail(sig, it.next().unwrap_or("").to_string());
+    for mm in [MiriMode::AliasingNoLocations, MiriMode::LocationsNoAliasing] {
+        match miri_run(&dir, mm, seed, &[format!("{}:{}", mode, crate::choices::hex(bytes))], 1500) {
+            Err(_) => return ctx.skip("cargo miri cannot be started"),
+            Ok(r) if r.timed_out => return ctx.skip("miri run exceeded the wall-clock limit"),
+            Ok(r) => {
+                if let Some((sig, detail)) = miri_error_sig(&r.stderr) {
+                    return Outcome::fail(sig, format!("[{:?}] {}", mm, detail));
                 }
-            }
-            if r.status == Some(0) {
-                Outcome::Pass
-            } else {
-                ctx.skip("miri run failed without a Miri diagnostic (build problem?)")
+                for l in r.stdout.lines() {
+                    if let Some(rest) = l.strip_prefix("FAIL ") {
+                        let mut it = rest.splitn(3, '\t');
+                        let _ = it.next();
+                        let sig = it.next().unwrap_or("C30|miri|oracle").to_string();
+                        return Outcome::fail(sig, it.next().unwrap_or("").to_string());
+                    }
+                }
+                if r.status != Some(0) {
+                    return ctx.skip("miri run failed without a Miri diagnostic (build problem?)");
+                }
             }
         }
     }
+    Outcome::Pass
 }
 
 pub fn check_miri_history(bytes: &[u8], ctx: &mut Ctx) -> Outcome {
@@ -1584,6 +1606,9 @@ pub fn check_miri_threaded(bytes: &[u8], ctx: &mut Ctx) -> Outcome {
 /// Entry point of `src/bin/c30_miri.rs`: every argument is `h:<hex>` or `t:<hex>`.
 pub fn miri_main(args: &[String]) -> i32 {
     let mut code = 0;
+    if args.iter().any(|a| a == "--no-locations") {
+        NO_LOCATIONS.store(true, std::sync::atomic::Ordering::Relaxed);
+    }
     for (i, a) in args.iter().enumerate() {
         let Some((mode, hexs)) = a.split_once(':') else { continue };
         let bytes = crate::choices::unhex(hexs);
@@ -1623,14 +1648,14 @@ fn custom(cfg: &RunCfg) -> CustomReport {
         .collect();
     // 1. build (and smoke-run) with a generous limit; failing to build is not a verdict
     let t0 = std::time::Instant::now();
-    match miri_run(&dir, 0, &[], 900) {
+    match miri_run(&dir, MiriMode::AliasingNoLocations, 0, &[], 1500) {
         Err(e) => {
             rep.inconclusive = Some(format!("Miri stage not run: {}", e));
             return rep;
         }
         Ok(r) if r.timed_out || r.status != Some(0) || !r.stdout.contains("DONE") => {
             rep.inconclusive = Some(format!(
-                "Miri stage not run: `cargo +nightly miri run --bin c30_miri` did not build/run within 900 s (status {:?}): {}",
+                "Miri stage not run: `cargo +nightly miri run --bin c30_miri` did not build/run within 1500 s (status {:?}): {}",
                 r.status,
                 crate::runner::truncate(r.stderr.trim(), 400)
             ));
@@ -1641,10 +1666,10 @@ fn custom(cfg: &RunCfg) -> CustomReport {
     rep.notes.push(format!("miri build+smoke run: {:.0}s", t0.elapsed().as_secs_f64()));
     // 2. batches in parallel
     let jobs: usize = std::env::var("VERIF_JOBS").ok().and_then(|s| s.parse().ok()).unwrap_or(16);
-    let per = 6usize;
+    let per = 10usize;
     let batches: Vec<Vec<usize>> = (0..cases.len()).collect::<Vec<_>>().chunks(per).map(|c| c.to_vec()).collect();
     let queue = Arc::new(Mutex::new(batches.into_iter().enumerate().collect::<Vec<_>>()));
-    let results: Arc<Mutex<Vec<(Vec<usize>, u64, Result<MiriRun, String>)>>> = Arc::new(Mutex::new(vec![]));
+    let results: Arc<Mutex<Vec<(Vec<usize>, u64, MiriMode, Result<MiriRun, String>)>>> = Arc::new(Mutex::new(vec![]));
     let cases = Arc::new(cases);
     let mut hs = vec![];
     for _ in 0..jobs {
@@ -1654,8 +1679,9 @@ fn custom(cfg: &RunCfg) -> CustomReport {
             let Some((bi, batch)) = queue.lock().unwrap().pop() else { break };
             let args: Vec<String> = batch.iter().map(|&i| format!("{}:{}", cases[i].0, crate::choices::hex(&cases[i].3))).collect();
             let miri_seed = crate::choices::fnv(format!("{}|miri|{}", seed, bi).as_bytes()) & 0xFFFF_FFFF;
-            let r = miri_run(&dir, miri_seed, &args, 600);
-            results.lock().unwrap().push((batch, miri_seed, r));
+            let mm = if bi % 2 == 0 { MiriMode::AliasingNoLocations } else { MiriMode::LocationsNoAliasing };
+            let r = miri_run(&dir, mm, miri_seed, &args, 900);
+            results.lock().unwrap().push((batch, miri_seed, mm, r));
         }));
     }
     for h in hs {
@@ -1663,7 +1689,7 @@ fn custom(cfg: &RunCfg) -> CustomReport {
     }
     let results = std::mem::take(&mut *results.lock().unwrap());
     let mut timeouts = 0;
-    for (batch, miri_seed, r) in results {
+    for (batch, miri_seed, mm, r) in results {
         let r = match r {
             Ok(r) => r,
             Err(e) => {
@@ -1687,7 +1713,7 @@ fn custom(cfg: &RunCfg) -> CustomReport {
                 if nt {
                     rep.nontrivial_keys.insert(crate::choices::fnv(&cases[ci].3) ^ 0x4D49_5249);
                 }
-                *rep.classes.entry(format!("miri/{}{}", if cases[ci].0 == "t" { "threaded" } else { "single" }, if nt { "/clone-drop-readback" } else { "/other" })).or_insert(0) += 1;
+                *rep.classes.entry(format!("miri/{}/{}{}", if mm == MiriMode::AliasingNoLocations { "aliasing-no-locations" } else { "locations-no-aliasing" }, if cases[ci].0 == "t" { "threaded" } else { "single" }, if nt { "/clone-drop-readback" } else { "/other" })).or_insert(0) += 1;
                 current = None;
             } else if let Some(rest) = l.strip_prefix("FAIL ") {
                 let mut it = rest.splitn(3, '\t');
@@ -1705,7 +1731,7 @@ fn custom(cfg: &RunCfg) -> CustomReport {
                 index: *index,
                 bytes: Some(bytes.clone()),
                 sig,
-                detail: format!("{}\n(replay with VERIF_MIRI_SEED={})", detail, miri_seed),
+                detail: format!("[{:?}] {}\n(replay with VERIF_MIRI_SEED={})", mm, detail, miri_seed),
                 rendered: o.trace,
                 shrunk: false,
             }
@@ -1729,7 +1755,7 @@ fn custom(cfg: &RunCfg) -> CustomReport {
         }
     }
     if timeouts > 0 {
-        rep.inconclusive = Some(format!("{} Miri batch(es) exceeded the 600 s wall-clock limit", timeouts));
+        rep.inconclusive = Some(format!("{} Miri batch(es) exceeded the 900 s wall-clock limit", timeouts));
     }
     rep.notes.push(format!("miri: {} histories interpreted ({} requested), total {:.0}s", rep.evaluations, total, t0.elapsed().as_secs_f64()));
     rep
